@@ -18,7 +18,7 @@ from mc.checks import rules_common as R
 
 PROPERTY = "C19"
 LEVEL = "exploration"
-RULE = ("cases = every sequence of 1..K tokens (K=4 quick, 5 thorough) over 26 tokens (WHOLE, FOODS, netflix.com, C++, (X), AT&T, O'REILLY, "
+RULE = ("cases = every sequence of 1..K tokens (K=4 quick, 5 thorough) over 29 tokens (WHOLE, FOODS, netflix.com, C++, (X), AT&T, O'REILLY, "
         "SAY\"HI\", X\\Y, #12, 1234, 98101, WA, A*B, [Z], $5, Café, a|b, 16\", #B4, PIE#2, WWW.SOUTHWESTAIRLINES.COM, INTERNATIONAL, A.B.C.D.E.F) joined by single blanks (plus the double-blank variant for 2-token "
         "descriptions) x 6 prefixes (none, APLPAY, SQ *, TST*, PP*, GOOGLE *); plus end-to-end discover->append->discover runs on statements of "
         "6 descriptions each. non-trivial = description with >=2 tokens or any non-alphanumeric character; descriptions distinct by construction")
@@ -28,7 +28,9 @@ ASSUMPTIONS = ["the suggested rule is made usable by replacing the CATEGORY/SUBC
 TOKENS = ["WHOLE", "FOODS", "netflix.com", "C++", "(X)", "AT&T", "O'REILLY", 'SAY"HI"', "X\\Y", "#12", "1234", "98101", "WA", "A*B",
           "[Z]", "$5", "Café", "a|b", '16"', "#B4", "PIE#2", "WWW.SOUTHWESTAIRLINES.COM", "INTERNATIONAL", "A.B.C.D.E.F",
           # characters whose upper-case form is longer than one character
-          "Straße", "ﬁn"]
+          "Straße", "ﬁn",
+          # a processor prefix in the middle of a word / name; a base letter followed by a combining mark
+          "APP*JOHN", "WASP", "CAFE\u0301"]
 PREFIXES = ["", "APLPAY ", "SQ *", "TST*", "PP*", "GOOGLE *"]
 
 
